@@ -35,13 +35,16 @@ pub const BUILDS: [Build; 7] = [
 /// Build an allocator in the given mode; Err(res) for failing/panicking construction
 pub fn build(frames: usize, spec: &ClassingSpec, b: Build) -> Result<Sut, Res> {
     let cfg = Config::new(frames, spec.clone(), InitMode::FreeAll);
+    // the caller's buffers hold arbitrary bytes before an initialising construction
+    let fill = [0u8, 0xff, 0x5a][(frames + spec.classes.len()) % 3];
     match b {
-        Build::FreeAll => Sut::try_new(&cfg, Init::FreeAll, true),
-        Build::AllocAll => Sut::try_new(&cfg, Init::AllocAll, true),
+        Build::FreeAll => Sut::try_new_filled(&cfg, Init::FreeAll, true, fill),
+        Build::AllocAll => Sut::try_new_filled(&cfg, Init::AllocAll, true, fill),
         Build::RecoverZero | Build::RecoverOnes => {
             let mut s = Sut::try_new(&cfg, Init::FreeAll, true)?;
-            s.bufs.local.fill(0);
-            s.bufs.trees.fill(0);
+            // volatile buffers hold arbitrary bytes after a crash
+            s.bufs.local.fill(fill);
+            s.bufs.trees.fill(fill);
             s.bufs
                 .lower
                 .fill(if matches!(b, Build::RecoverOnes) { 0xff } else { 0 });
